@@ -83,3 +83,22 @@ package ledger
 //@   ensures count_is_body_length: result0 ==> block.TxCount == len(block.Transactions)
 //@   ensures key_binds_proposer: result0 ==> cc.GetEcdsaPublicKeyFromJsonStr#1(str(block.Pubkey)) == nil && cc.VerifyAddressUsingPublicKey(str(block.Proposer), k)
 //@   ensures signature_over_id: result0 ==> cc.VerifyECDSA#1(k, block.Sign, block.Blockid) == nil && cc.VerifyECDSA(k, block.Sign, block.Blockid)
+
+// ======================= C13: award validation =======================
+// awardAt(gb, h): the award the genesis configuration prescribes for height h. The
+// decay (floating point, memoised per period) is not modelled: CalcAward is ASSUMED
+// to be this function of configuration and height (trusted).
+//@ spec func awardAt(gb *GenesisBlock, h int) int
+//@ func GenesisBlock.CalcAward
+//@   property C13
+//@   noverify
+//@   modifies ghost bigval
+//@   ensures is_the_prescribed_award: result != nil && sel(bigval, result) == awardAt(gb, blockHeight)
+//@   ensures other_numbers_untouched: forall r int :: r != result ==> sel(bigval, r) == sel(old(bigval), r)
+
+// A coinbase transaction is valid in a block exactly when its first output carries
+// the award prescribed for the block's own height.
+//@ func Ledger.IsValidTx
+//@   property C13
+//@   ensures coinbase_carries_the_award_of_the_block_height: tx.Coinbase ==> (result == (len(tx.TxOutputs) >= 1 && natOf(tx.TxOutputs[0].Amount) == awardAt(l.GenesisBlock, block.Height)))
+//@   ensures others_pass: !tx.Coinbase ==> result
